@@ -860,24 +860,78 @@ theorem all_allLeE_lift (S : List Pt) (r : Pt) :
     (S.map liftPt).all (fun p => allLeE p (liftPt r)) = true ↔ ∀ p ∈ S, Le p r := by
   simp only [List.all_map, List.all_eq_true, Function.comp_apply, allLeE_lift]
 
-/-- finite inputs that pass the reference check go to the finite core … -/
+theorem allLt_iff (p r : Pt) : allLt p r = true ↔ Lt p r := by
+  induction p generalizing r with
+  | nil => cases r <;> simp [allLt, Lt]
+  | cons a p ih =>
+    cases r with
+    | nil => simp [allLt, Lt]
+    | cons b r => simp only [allLt, Bool.and_eq_true, decide_eq_true_eq, Lt, forall₂_cons, ih r]
+
+theorem allLtE_lift (p r : Pt) : allLtE (liftPt p) (liftPt r) = allLt p r := by
+  induction p generalizing r with
+  | nil => cases r <;> simp [liftPt, allLtE, allLt]
+  | cons a p ih =>
+    cases r with
+    | nil => simp [liftPt, allLtE, allLt]
+    | cons b r =>
+      have := ih r
+      simp only [liftPt, List.map_cons] at this ⊢
+      simp only [allLtE, allLt, this, EInt.lt, EInt.le]
+      congr 1
+      by_cases h : a < b
+      · simp [h, le_of_lt h, not_le.2 h]
+      · have h' : b ≤ a := not_lt.1 h
+        simp [h, h']
+
+theorem filter_lift (S : List Pt) (r : Pt) :
+    (S.map liftPt).filter (fun p => allLtE p (liftPt r)) = (dropTouching S r).map liftPt := by
+  induction S with
+  | nil => rfl
+  | cons p S ih =>
+    simp only [List.map_cons, List.filter_cons, dropTouching, allLtE_lift] at ih ⊢
+    split <;> simp [ih]
+
+/-- a row that touches the reference point dominates no cell: dropping such rows does not change the dominated set -/
+theorem unionF_dropTouching (S : List Pt) (r : Pt) : unionF r (dropTouching S r) = unionF r S := by
+  ext c
+  simp only [mem_unionF, dropTouching, List.mem_filter, allLt_iff]
+  constructor
+  · rintro ⟨p, ⟨hp, _⟩, h⟩
+    exact ⟨p, hp, h⟩
+  · rintro ⟨p, hp, h1, h2⟩
+    refine ⟨p, ⟨hp, ?_⟩, h1, h2⟩
+    -- `p ≤ c < r` coordinatewise
+    clear hp
+    induction h1 generalizing r with
+    | nil => cases h2; exact Forall₂.nil
+    | cons hab _ ih =>
+      cases h2 with
+      | cons hbc h2 => exact Forall₂.cons (lt_of_le_of_lt hab hbc) (ih _ h2)
+
+theorem hvSpec_dropTouching (S : List Pt) (r : Pt) : hvSpec (dropTouching S r) r = hvSpec S r := by
+  simp only [hvSpec, unionF_dropTouching]
+
+/-- finite inputs that pass the reference check: the rows touching the reference point are dropped, nothing left
+gives 0, otherwise the finite core runs on the remaining rows … -/
 theorem computeHypervolume_lift (S : List Pt) (r : Pt) (ap : Bool) (h : ∀ p ∈ S, Le p r) :
-    computeHypervolume (S.map liftPt) (liftPt r) ap = HvOut.fin (computeHypervolumeFin S r ap) := by
+    computeHypervolume (S.map liftPt) (liftPt r) ap =
+      HvOut.fin (if (dropTouching S r).isEmpty then 0 else computeHypervolumeFin (dropTouching S r) r ap) := by
   unfold computeHypervolume
-  have h2 : (S.map liftPt).any (fun p => p.any (fun c => !c.isFinite)) = false := by
+  have h2 : ((dropTouching S r).map liftPt).any (fun p => p.any (fun c => !c.isFinite)) = false := by
     simp only [List.any_map, List.any_eq_false, Function.comp_apply, Bool.not_eq_true]
     intro p _
     simp [liftPt, EInt.isFinite]
-  have h3 : (S.map liftPt).map (·.map EInt.toInt) = S := by
+  have h3 : ((dropTouching S r).map liftPt).map (·.map EInt.toInt) = dropTouching S r := by
     simp only [List.map_map]
-    conv => rhs; rw [← List.map_id S]
+    conv => rhs; rw [← List.map_id (dropTouching S r)]
     apply List.map_congr_left
     intro p _
     simp [lift_toInt]
-  simp only [(all_allLeE_lift S r).2 h, lift_all_finite, h2, h3, lift_toInt, Bool.not_true,
-    Bool.false_eq_true, if_false]
+  simp only [(all_allLeE_lift S r).2 h, lift_all_finite, filter_lift, h2, h3, lift_toInt, Bool.not_true,
+    Bool.false_eq_true, if_false, List.isEmpty_map]
+  split <;> rfl
 
-/-- … and the others raise `ValueError`. -/
 theorem computeHypervolume_lift_error (S : List Pt) (r : Pt) (ap : Bool) (h : ¬ ∀ p ∈ S, Le p r) :
     computeHypervolume (S.map liftPt) (liftPt r) ap = HvOut.error := by
   unfold computeHypervolume
@@ -885,6 +939,31 @@ theorem computeHypervolume_lift_error (S : List Pt) (r : Pt) (ap : Bool) (h : ¬
     by_contra hc
     exact h ((all_allLeE_lift S r).1 (by simpa using hc))
   simp [this]
+
+/-- … so `compute_hypervolume` is exact on finite inputs that pass the check, with and without `assume_pareto`,
+rows touching the reference point included -/
+theorem computeHypervolume_eq_spec (S : List Pt) (r : Pt) (ap : Bool) (h : ∀ p ∈ S, Le p r) :
+    computeHypervolume (S.map liftPt) (liftPt r) ap = HvOut.fin (hvSpec S r) := by
+  rw [computeHypervolume_lift S r ap h]
+  have hD : ∀ p ∈ dropTouching S r, Le p r := fun p hp => h p (List.mem_filter.1 hp).1
+  congr 1
+  split
+  · rename_i he
+    rw [← hvSpec_dropTouching, List.isEmpty_iff.1 he]
+    simp [hvSpec, unionF]
+  · cases ap
+    · rw [computeHypervolumeFin_eq_spec _ r hD, hvSpec_dropTouching]
+    · rw [computeHypervolumeFin_assumePareto_eq_spec_all _ r hD, hvSpec_dropTouching]
+
+theorem EInt.lt_of_le_ne {a b : EInt} (h : a.le b = true) (hne : a ≠ b) : a.lt b = true := by
+  cases a <;> cases b <;> simp_all [EInt.lt, EInt.le]
+  omega
+
+theorem allLtE_of_forall₂ {p r : List EInt} (h : List.Forall₂ (fun a b => a.le b = true ∧ a ≠ b) p r) :
+    allLtE p r = true := by
+  induction h with
+  | nil => rfl
+  | cons hab _ ih => simp [allLtE, EInt.lt_of_le_ne hab.1 hab.2, ih]
 
 /-! ## the driver's brute-force cell count is the specification -/
 
